@@ -1,6 +1,10 @@
 package pqrun
 
-import "verifharness/engine"
+import (
+	"fmt"
+
+	"verifharness/engine"
+)
 
 // Params steer the queue program generator.
 type Params struct {
@@ -318,4 +322,80 @@ func (s *Session) ClosedProbe() {
 	s.Consumed = s.Acked
 	s.curRead, s.curLeft = -1, 0
 	s.emit("closedprobe")
+}
+
+// ExactFill fills a fresh bounded file with ONE flush of single-page events that uses up
+// (almost) every allocatable page, then reads and ACKs everything and goes on writing: the ACK
+// has to commit on a file without free data pages and with a minimal, fully used meta area
+// (C12: a full queue can always be drained).
+func ExactFill(r *engine.RNG, cfg Config, slack int) *Session {
+	if cfg.MaxPages == 0 {
+		cfg.MaxPages = 65536 / uint64(cfg.PageSize)
+	}
+	cfg.WriteBuffer = uint(cfg.PageSize) * uint(cfg.MaxPages+8) // nothing is flushed before the explicit Flush
+	s := New(cfg)
+	if s.Open() != "ok" {
+		s.fail("C12", "open", "opening the queue failed")
+		return s
+	}
+	fs := s.F.VerifSnapshot()
+	alloc := int(fs.DataAvail)
+	if fs.DataEnd < fs.MaxPages {
+		alloc += int(fs.MaxPages - fs.DataEnd)
+	}
+	k := alloc - slack
+	if k < 1 {
+		return s
+	}
+	sz := int(cfg.PageSize) - 28 - 4 // one event = exactly one queue page
+	for i := 0; i < k; i++ {
+		if s.WriteChunk(sz) != "ok" || s.Next() != "ok" {
+			s.mark("exact-fill-buffer-refused")
+			return s
+		}
+	}
+	if s.Flush() != "ok" {
+		s.mark("exact-fill-flush-oom")
+		return s
+	}
+	after := s.F.VerifSnapshot()
+	free := int(after.DataAvail)
+	if after.DataEnd < after.MaxPages {
+		free += int(after.MaxPages - after.DataEnd)
+	}
+	s.mark(fmt.Sprintf("exact-fill-free-%d", min(free, 3)))
+	// buffer a few more events; flushing them needs the space the ACK frees
+	extra := 1 + r.Intn(4)
+	for i := 0; i < extra; i++ {
+		if s.WriteChunk(1+r.Intn(sz)) != "ok" || s.Next() != "ok" {
+			break
+		}
+	}
+	// read everything and ACK it in one go: must succeed whatever the fill level
+	if s.Begin() == "ok" {
+		for {
+			n := s.RNext()
+			if n <= 0 {
+				break
+			}
+			for s.curRead >= 0 {
+				if s.RRead(s.curLeft) != "ok" {
+					break
+				}
+			}
+		}
+		s.Done()
+	}
+	if s.Consumed != s.Flushed {
+		s.fail("C12", "exact-fill-read", "full file: %d of %d flushed events delivered", s.Consumed, s.Flushed)
+	}
+	if s.Consumed > s.Acked {
+		s.ACK(s.Consumed - s.Acked) // a failure is reported by ACK itself (C12 ack-failed)
+	}
+	if s.Flush() != "ok" {
+		s.fail("C12", "exact-fill-drain", "after reading and ACKing all %d events of a full file the buffered events still cannot be flushed", s.Acked)
+	}
+	s.drain(r, 1<<30)
+	s.Counters()
+	return s
 }
